@@ -335,6 +335,27 @@ fn documents(tier: Tier) -> Vec<DocFaults> {
         let d = render_doc(&base, &l).into_bytes();
         docs.push((format!("generated/{}", name), d, true));
     }
+    // non-ASCII content (multi-byte characters in ids, names, texts), with and without a UTF-8 BOM:
+    // byte offsets and character offsets differ, and every cut / corruption can split a character
+    {
+        let uni: Vec<Elem> = vec![
+            Elem::Coding(Coding { id: "COD_é".into(), base_type: "A_UINT16".into() }),
+            Elem::Signal(Signal { id: "SIG_€".into(), coding_ref: "COD_é".into() }),
+            Elem::Pdu(pdu("Pß1", Desc::Text("Maß für Öl 😀 €".into()), &[("SIG_€", 1), ("S_UINT8", 0)])),
+            Elem::Pdu(pdu("P😀", Desc::Text("ü".into()), &[("S_SINT32", 0)])),
+            Elem::Frame(frame("ID_1", "främe €", &[("P😀", 1), ("Pß1", 0)], Some(manuf(Some("ÄPP"), Some("CTX€"), Some("T"), Some("I"))))),
+        ];
+        for (name, l) in [("unicode", Layout::default()), ("unicode, no indentation", Layout { indent: false, ..Layout::default() })] {
+            let d = render_doc(&uni, &l).into_bytes();
+            docs.push((format!("generated/{}", name), d.clone(), true));
+            let mut with_bom = vec![0xEF, 0xBB, 0xBF];
+            with_bom.extend_from_slice(&d);
+            docs.push((format!("generated/{} with BOM", name), with_bom, true));
+        }
+        let mut with_bom = vec![0xEF, 0xBB, 0xBF];
+        with_bom.extend_from_slice(render_doc(&base, &Layout::default()).as_bytes());
+        docs.push(("generated/default with BOM".into(), with_bom, true));
+    }
     // frames only / pdus only / empty elements section
     docs.push(("generated/frame referencing nothing".into(), render_doc(&[Elem::Frame(frame("ID_9", "lonely", &[], None))], &Layout::default()).into_bytes(), true));
     docs.push(("generated/no elements".into(), render_doc(&[], &Layout::default()).into_bytes(), true));
@@ -435,6 +456,36 @@ pub fn run(ctx: &Ctx) {
             loc.state(mix(cut as u64, i % 2 + 77), true);
             judge_paths(&paths, &what, json!({"what": what}), loc);
         }));
+    }
+    // repetition / nesting faults: N copies of a snippet at each structural position
+    {
+        let base = docs.iter().find(|d| d.name == "generated/default").map(|d| d.doc.clone()).unwrap_or_default();
+        let anchors: Vec<&[u8]> = vec![b"<ho:DESC>", b"<ho:SHORT-NAME>", b"<fx:PDUS>", b"<fx:SEQUENCE-NUMBER>", b"<fx:FRAME ID=\"ID_1\">", b"<fx:ELEMENTS>", b"<fx:MANUFACTURER-EXTENSION>", b"<APPLICATION_ID>", b"<fx:SIGNAL-INSTANCES>", b"<fx:PDU ID=\"P1\"", b"</fx:FIBEX>"];
+        let snippets: Vec<&[u8]> = vec![b"<!-- c -->", b"<x>", b"<x/>", b"<x></x>", b" \n", b"&amp;", b"<![CDATA[x]]>", b"<?pi v?>", b" a=\"b\"", b"</x>", b"<fx:PDU ID=\"Q\">"];
+        let counts: Vec<usize> = match ctx.tier {
+            Tier::Quick => vec![1, 2, 50, 3000, 200_000],
+            Tier::Thorough => vec![1, 2, 3, 10, 50, 1000, 3000, 20_000, 200_000, 1_000_000],
+        };
+        let positions: Vec<usize> = anchors.iter().filter_map(|a| base.windows(a.len()).position(|w| w == *a).map(|p| p + a.len())).collect();
+        let sp = Space::new(&[positions.len(), snippets.len(), counts.len()]);
+        let s2 = sp.clone();
+        let (base, positions, snippets, counts, anchors) = (&base, &positions, &snippets, &counts, &anchors);
+        ctx.run_family(Family::new("c12.repetition", sp.size(), format!("the generated default document with N copies of a snippet inserted right after each of {} structural anchors (inside DESC / SHORT-NAME / SEQUENCE-NUMBER / APPLICATION_ID text, inside PDUS / FRAME / ELEMENTS / MANUFACTURER-EXTENSION / SIGNAL-INSTANCES, inside a start tag, after the root): snippets comment, unclosed element, empty element, element pair, whitespace, entity, CDATA, processing instruction, attribute, stray end tag, nested PDU start; N in {:?} (deep nesting / long runs: recursion and buffer growth)", positions.len(), counts), move |i, loc| {
+            let c = s2.coords(i);
+            let (pos, snip, n) = (positions[c[0]], snippets[c[1]], counts[c[2]]);
+            let mut d = Vec::with_capacity(base.len() + snip.len() * n);
+            d.extend_from_slice(&base[..pos]);
+            for _ in 0..n {
+                d.extend_from_slice(snip);
+            }
+            d.extend_from_slice(&base[pos..]);
+            let dir = thread_dir();
+            let p = format!("{}/rep.xml", dir);
+            std::fs::write(&p, &d).expect("write");
+            let what = format!("generated default document with {} x {:?} inserted after {:?} (byte {})", n, String::from_utf8_lossy(snip), String::from_utf8_lossy(anchors[c[0]]), pos);
+            loc.state(i + 7_000_000, true);
+            judge_paths(&[p], &what, json!({"what": what}), loc);
+        }).chunk(1));
     }
     // bad paths
     {
